@@ -289,6 +289,18 @@ func sliceElemSources(v ssa.Value, depth int, out map[string]bool) {
 	case *ssa.Const:
 		return // nil slice
 	case *ssa.MakeSlice:
+		// make([]T, n, cap) followed by s[i] = x: the elements assigned by index
+		if refs := x.Referrers(); refs != nil {
+			for _, r := range *refs {
+				if ia, ok := r.(*ssa.IndexAddr); ok {
+					for _, rr := range *ia.Referrers() {
+						if st, ok := rr.(*ssa.Store); ok && st.Addr == ia {
+							out["elem:"+trace(st.Val)] = true
+						}
+					}
+				}
+			}
+		}
 		return
 	case *ssa.Phi:
 		for _, e := range x.Edges {
